@@ -40,6 +40,12 @@ def run_ghe(c):
     g = ghe_drv.build(c)
     H = c.get("H_eval", g.bhe.b.H)
     g.bhe.b.H = H
+    if c.get("first_rb"):
+        # the object was asked for its g-function before, when its borehole had another radius
+        want_rb = g.bhe.b.r_b
+        g.bhe.b.r_b = c["first_rb"]
+        g.grab_g_function(g.B_spacing / H)
+        g.bhe.b.r_b = want_rb
     gf, gb = g.grab_g_function(g.B_spacing / H)
     G = g.gFunction
     glts, rbv, _, _ = G.g_function_interpolation(g.B_spacing / H)
@@ -101,6 +107,10 @@ def run_fls(c):
                 tot += cache[k]
         ga.append(tot / n)
     out = {"ok": True, "uhtr": [float(v) for v in gu], "fls": ga, "n": n}
+    # the same curve as the tool stores it: through calc_g_func_for_multiple_lengths (what the design searches call)
+    from ghedesigner.gfunction import calc_g_func_for_multiple_lengths
+    fam = calc_g_func_for_multiple_lengths(c["B"], [H], rb, D, 0.3, BHPipeType.SINGLEUTUBE, list(lt), coords, fluid, pipe, grout, soil, boundary="UHTR")
+    out["uhtr_family"] = [float(v) for v in fam.g_lts[H]]
     if n == 1:
         gm = calculate_g_function(0.3, BHPipeType.SINGLEUTUBE, times, coords, b, fluid, pipe, grout, soil, boundary="MIFT").gFunc
         out["mift"] = [float(v) for v in gm]
